@@ -259,11 +259,14 @@ func init() {
 		}
 		if err == nil {
 			want := append([]byte{byte(len(c))}, c...)
-			x := []byte{0x3d, 0x01}
-			r, rem, rerr := data.ReadI2PString(append(append([]byte{}, s...), x...))
-			d, derr := r.Data()
-			if !bytes.Equal(s, want) || rerr != nil || !bytes.Equal(r, want) || !bytes.Equal(rem, x) || derr != nil || d != string(c) {
-				fails = append(fails, fail("C12", "str-roundtrip", "NewI2PString/ReadI2PString round trip failed for %d bytes", len(c)))
+			// read back from a stream (bytes follow) and from a buffer the string fills exactly
+			for _, x := range [][]byte{{0x3d, 0x01}, {}} {
+				r, rem, rerr := data.ReadI2PString(append(append([]byte{}, s...), x...))
+				d, derr := r.Data()
+				if !bytes.Equal(s, want) || rerr != nil || !bytes.Equal(r, want) || !bytes.Equal(rem, x) || derr != nil || d != string(c) {
+					fails = append(fails, fail("C12", "str-roundtrip", "NewI2PString/ReadI2PString round trip failed for %d bytes followed by %d bytes", len(c), len(x)))
+					break
+				}
 			}
 		}
 		return okHex(s, err), fails
